@@ -25,7 +25,17 @@ def replay(prop, path):
     """Re-executes the history stored in a replay file on the current tree and
     re-validates it."""
     payload = json.load(open(path))
+    all_checks()          # registers every family's failure tags
+    if payload.get("kind") == "mc_lock":
+        # the counterexample was found by MC_Lock on the extracted programs: extract and model check again
+        from . import lchecks
+        return lchecks.check_c14("quick", 1)
     out = checks.Outcome(prop, "quick", 0)
-    checks.run_batch(out, "replay", payload["dict"], [payload["history"]], spec=payload.get("spec", "Trace_File"), nshards=1,
-                     driver=payload.get("driver", "drive"))
-    return checks.finish(out, "model_checking", "replay of one recorded history", checks.FILE_ASSUME)
+    out.replay = True
+    hs = payload.get("bundle") or [payload["history"]]
+    checks.run_batch(out, "replay", payload["dict"], hs, spec=payload.get("spec", "Trace_File"), nshards=1,
+                     driver=payload.get("driver", "drive"), extra_specs=tuple(payload.get("extra_specs") or ()),
+                     group_key=(lambda h: 0) if payload.get("bundle") else None)
+    level = "exploration" if prop in ("C05", "C11") else "fault_enumeration" if prop in ("C12", "C13") else "model_checking"
+    return checks.finish(out, level, "replay of one recorded history (with its configuration bundle where the verdict compares configurations)",
+                         checks.FILE_ASSUME)
